@@ -107,9 +107,9 @@ def execute(plan):
     def add(clause, witness):
         viol.append({"clause": clause, "witness": witness})
 
-    def run(faults=(), trace=None):
+    def run(faults=(), trace=None, ambient=None):
         ck = None if blob is None else Store.loads(blob)
-        a = Act(problem, cfg, checkpoint=ck, faults=faults, trace=trace).run()
+        a = Act(problem, cfg, checkpoint=ck, faults=faults, trace=trace, ambient_errstate=ambient).run()
         stats["activations"] += 1
         stats["events"] += a.n_events
         return a
@@ -197,6 +197,32 @@ def execute(plan):
                 for v in (spec["family"], cfg["jac"], actor, tname, min(j, 4), in_ls, bool(blob), outcome)
             )
         )
+
+    # the caller runs under np.errstate(over="raise") and the objective / gradient overflows at one call:
+    # numpy raises FloatingPointError from inside the user's function, which must reach the caller
+    # like any other exception (a solver that changes the error state around user calls hides it)
+    RAISE_OVER = {"over": "raise"}
+    A2 = run(ambient=RAISE_OVER)
+    if A2.result is None or A2.result_digest() != ref_r or A2.event_digest() != ref_e:
+        # the solver's own arithmetic overflows on this plan (or depends on the error state): not judged here
+        stats["nj.run_differs_under_caller_errstate"] += 1
+    else:
+        for actor in ("fun", "jac"):
+            n_calls = int(A.counts[actor])
+            if n_calls == 0:
+                continue
+            for j in sorted(set([1, n_calls] + [int(v) for v in rng.integers(1, n_calls + 1, size=3)])):
+                B = run(faults=[{"kind": "fpe", "actor": actor, "at": j}], ambient=RAISE_OVER)
+                if B.fired["fpe"] == 0:
+                    stats["nj.fault_not_reached"] += 1
+                    continue
+                stats["fault.numpy_overflow_under_raise"] += 1
+                w = {"actor": actor, "call_index": j, "exception": "FloatingPointError raised by numpy inside the user's function (caller's np.errstate over='raise')", "fd_mode": fd, "in_linesearch": bool(B.fired["fpe_in_ls"])}
+                if B.exc is None:
+                    add("exception_swallowed", dict(w, outcome=B.result_digest()[:40]))
+                elif type(B.exc) is not FloatingPointError:
+                    add("exception_type_changed", dict(w, got=type(B.exc).__name__, got_message=str(B.exc)[:200]))
+                keys.add("|".join(str(v) for v in (spec["family"], cfg["jac"], actor, "numpy_fpe", min(j, 4), bool(B.fired["fpe_in_ls"]), bool(blob))))
 
     # asynchronous interruption at traced line steps
     n_line = int(plan.get("n_line", 0))
